@@ -72,6 +72,36 @@ def check(an, rep, tier):
                         'd=%d' % (k, d), 'ok' if not grow else 'unknown',
                         '' if not grow else 'bond %s: %s not known <= input'
                         % (grow, [bonds[i - 1] for i in grow]))
+        # the same typestates for a tensor whose ranks are all 1 (every
+        # unfolding has a single column / row: the step must still normalise
+        # it -- a shortcut for "nothing to orthogonalise" leaves the core as
+        # it came in)
+        for k in list(range(d)):
+            v1 = dict(Y='tt1', k=('lit', k))
+            r1_ = an.run('transformation.orthogonalize', 0, d, variant=v1,
+                         extra_key=('piv1', k))
+            for rv in r1_.returns:
+                if rv.k != 'list' or not rv.items:
+                    continue
+                states = [c.orth for c in rv.items]
+                want = ['cols3'] * k + [None] + ['rows3'] * (d - 1 - k)
+                ok = all((s == w) if w else (s not in ('cols3', 'rows3'))
+                         for s, w in zip(states, want))
+                untouched = [i for i, (s, w, c) in enumerate(
+                    zip(states, want, rv.items))
+                    if w and s is None and c.note == 'input']
+                known_bad = bool(untouched) or any(
+                    (w and s is not None and s != w) or
+                    (not w and s in ('cols3', 'rows3'))
+                    for s, w in zip(states, want))
+                rep.add('O-producer', r1_.qualname, 'core states for pivot '
+                        '%d at d=%d, all ranks 1' % (k, d),
+                        'ok' if ok else ('violation' if known_bad
+                                         else 'unknown'),
+                        '' if ok else 'core states %s, expected %s%s'
+                        % (states, want, '; core(s) %s are unmodified copies '
+                           'of the input cores' % untouched if untouched
+                           else ''))
         # P-domain
         for q, bad, good in (
                 ('transformation.orthogonalize', [-1, d], list(range(d))),
